@@ -125,20 +125,23 @@ class Observer:
         self.targets = {}        # code object -> label
         self.events = []
         self.active = False
+        self.current = None      # the (long-lived) datagram that is being delivered, as a transient copy
         self.coframes = {}       # id(frame) -> frame of coroutine handlers already entered (a resume is not an entry)
 
     def add(self, code, label):
         self.targets.setdefault(code, label)
 
     def prof(self, frame, event, arg):
-        if event == "call" and self.active:
+        if event == "call":
             lab = self.targets.get(frame.f_code)
             if lab is not None:
                 code = frame.f_code
                 if code.co_flags & 0x80:          # CO_COROUTINE: 'call' also fires on every resume
                     if self.coframes.get(id(frame)) is frame:
                         return
-                    self.coframes[id(frame)] = frame
+                    self.coframes[id(frame)] = frame     # remembered even while not recording (prelude deliveries)
+                if not self.active:
+                    return
                 names = code.co_varnames[:code.co_argcount]
                 loc = frame.f_locals
                 if lab[0] == "add_address":       # Peer.add_address(self, value): who is touched, by which caller
@@ -148,8 +151,15 @@ class Observer:
                                         code.co_name))
                     return
                 second = loc.get(names[1]) if len(names) > 1 else None
-                self.events.append((lab, second, dict((nm, loc.get(nm)) for nm in names[2:]), loc.get("payloads"),
-                                    code.co_name))
+                rest = {}
+                for nm in names[2:]:
+                    v = loc.get(nm)
+                    if isinstance(v, (bytes, bytearray)):
+                        # never keep the datagram object alive (transports hand over a fresh object per packet and
+                        # free it afterwards); keep what is needed: is it the datagram that was delivered?
+                        v = bytes(v) if self.current is None or bytes(v) != self.current else self.current
+                    rest[nm] = v
+                self.events.append((lab, second, rest, None, code.co_name))
 
     def start(self):
         sys.setprofile(self.prof)
@@ -318,8 +328,22 @@ async def sc_dht(cap, cls, curve):
         vnode = Node(bytes(vk.pub().key_to_bin()), _A4(*a.endpoint.wan_address))
         b.overlay.get_routing_table(vnode).add(vnode)
         b._c01_auth.add(bytes(vk.pub().key_to_bin()))      # inserted by the scenario into b, not learned from a datagram
-        await step(c.overlay.find_nodes(vnode.id), 0.5)
-        await step(c.overlay.find_values(vnode.id), 0.5)
+        # schedule class "the contact does not answer": the lookups run in the background, every find-request that is
+        # still pending after the answers came in (the one to the named third party: nobody signs with ITS key) is timed
+        # out through the request cache's own API instead of waiting two real seconds
+        lookups = [asyncio.ensure_future(c.overlay.find_nodes(vnode.id)), asyncio.ensure_future(c.overlay.find_values(vnode.id))]
+        for _ in range(4):
+            await pump()
+            rc = c.overlay.request_cache
+            for ident, cache in list(getattr(rc, "_identifiers", {}).items()):
+                if getattr(cache, "msg_type", None) == "find":
+                    try:
+                        rc.pop(cache.prefix, cache.number)
+                        cache.on_timeout()
+                    except BaseException:
+                        pass
+        for lk in lookups:
+            await step(lk, 0.3)
     except BaseException:
         pass
     await pump()
@@ -387,8 +411,81 @@ async def sc_tunnel(cap, cls, curve):
     return nodes
 
 
+async def sc_tunnel_circuit(cap, cls, curve):
+    """A real 1-hop circuit V -> E.  The one authenticated tunnel message (destroy) decides WHOSE circuit to tear down from
+    the sender's identity: a destroy that is validly signed by a third key X must not be acted upon as if the hop E had
+    sent it — wherever it appears to come from (X puts E's address into the UDP source field) — while E's own does work."""
+    from ipv8.messaging.anonymization.payload import DestroyPayload
+    from ipv8.messaging.anonymization.tunnel import CIRCUIT_STATE_READY, PEER_FLAG_EXIT_BT, PEER_FLAG_RELAY
+    ctx = cap.ctx
+    nodes = []
+    for is_exit in (False, True, False):
+        st = cls.settings_class()
+        st.min_circuits = 0
+        st.max_circuits = 0
+        st.remove_tunnel_delay = 0
+        st.peer_flags = {PEER_FLAG_RELAY} | ({PEER_FLAG_EXIT_BT} if is_exit else set())
+        from ipv8.test.mocking.ipv8 import MockIPv8
+        n = MockIPv8("curve25519", cls, settings=st)
+        n.overlay.cancel_all_pending_tasks()
+        n.overlay.settings.min_circuits = 1
+        n.overlay.settings.max_circuits = 1
+        nodes.append(n)
+        cap.tap(n, cls.__name__, "curve25519")
+    v, e, x = nodes
+    v.overlay.walk_to(e.endpoint.wan_address)
+    e.overlay.walk_to(v.endpoint.wan_address)
+    for _ in range(6):
+        await pump()
+        await asyncio.sleep(0.005)
+    v.overlay.build_tunnels(1)
+    for _ in range(40):
+        await pump()
+        await asyncio.sleep(0.005)
+        if v.overlay.find_circuits(state=CIRCUIT_STATE_READY):
+            break
+    ready = v.overlay.find_circuits(state=CIRCUIT_STATE_READY)
+    ctx.count("tunnel-circuit:built" if ready else "tunnel-circuit:NOT-built")
+    if not ready:
+        return nodes
+    cid = ready[0].circuit_id
+    forged = x.overlay.ezr_pack(DestroyPayload.msg_id, DestroyPayload(cid, 0))          # authentic — for X's key
+    for label, src in (("from-own-address", x.endpoint.wan_address), ("from-the-hops-address", e.endpoint.wan_address)):
+        v.overlay.on_packet((src, forged))
+        await pump()
+        alive = cid in v.overlay.circuits and v.overlay.circuits[cid].state == CIRCUIT_STATE_READY
+        ctx.count(f"tunnel-circuit:third-key-destroy:{label}:{'ignored' if alive else 'OBEYED'}")
+        ctx.case(("tunnel-destroy", cls.__name__, label), True)
+        if not alive:
+            ctx.oracle_fail(f"{cls.__name__}.on_destroy:acted-for-another-key",
+                            f"{cls.__name__}: a destroy validly signed by a third key X tore down a circuit whose hop is E "
+                            f"(datagram delivered {label}): the message was attributed to a key that did not sign it",
+                            {"overlay": cls.__name__, "then": "strategies", "scenario": "sc_tunnel_circuit",
+                             "history": [{"src": list(src), "data": forged.hex(), "verified_before": []}]})
+            return nodes
+    # the same destroy from the exit's side: X names E's exit socket
+    es = list(e.overlay.exit_sockets)
+    if es:
+        forged2 = x.overlay.ezr_pack(DestroyPayload.msg_id, DestroyPayload(es[0], 0))
+        e.overlay.on_packet((v.endpoint.wan_address, forged2))
+        await pump()
+        alive = es[0] in e.overlay.exit_sockets
+        ctx.count(f"tunnel-circuit:third-key-destroy:exit-socket:{'ignored' if alive else 'OBEYED'}")
+        if not alive:
+            ctx.oracle_fail(f"{cls.__name__}.on_destroy:acted-for-another-key",
+                            f"{cls.__name__}: a destroy validly signed by a third key X removed an exit socket whose hop is V",
+                            {"overlay": cls.__name__, "then": "strategies", "scenario": "sc_tunnel_circuit",
+                             "history": [{"src": list(v.endpoint.wan_address), "data": forged2.hex(), "verified_before": []}]})
+    # and the hop's own destroy is obeyed (the oracle above is not satisfied by a handler that ignores everything)
+    e.overlay.send_destroy(v.endpoint.wan_address, cid, 0)
+    await pump()
+    ctx.count(f"tunnel-circuit:own-destroy:{'obeyed' if cid not in v.overlay.circuits else 'IGNORED'}")
+    return nodes
+
+
 async def capture_all(ctx: Ctx, tables, rounds: int, only: str | None = None):
     cap = Capture()
+    cap.ctx = ctx
     by_name = {t["overlay"]: t["cls"] for t in tables}
     curves = ["curve25519", "very-low", "low", "medium", "high"]
     for rnd in range(rounds):
@@ -408,6 +505,8 @@ async def capture_all(ctx: Ctx, tables, rounds: int, only: str | None = None):
                 scs.append(sc_wallet(cap, cls, "curve25519"))
             if name in ("TunnelCommunity", "HiddenTunnelCommunity"):
                 scs.append(sc_tunnel(cap, cls, curve))
+                if rnd == 0:
+                    scs.append(sc_tunnel_circuit(cap, cls, curve))
             for sc in scs:
                 try:
                     nodes = await sc
@@ -680,6 +779,8 @@ class Receivers:
             node.overlay.max_peers = -1      # configuration, not code: the receivers see hundreds of peers in one run and the
             #                                  max_peers gates (raw discovery handler, on_introduction_request) are not C01's subject
             self.nodes[name] = node
+            node._c01_async_handlers = any(asyncio.iscoroutinefunction(getattr(h["func"], "__func__", h["func"]))
+                                           for h in t["handlers"])
             self.register_targets(node, t)
         return self.nodes[name]
 
@@ -723,8 +824,34 @@ def peer_state(p):
     return tuple(sorted((c.__name__, tuple(a)) for c, a in p.addresses.items())), tuple(p.address)
 
 
-async def deliver(node, obs: Observer, src, data: bytes, watch=()):
+def _hand_over(overlay, src, template: bytearray):
+    """what a transport does: a FRESH bytes object per packet, dropped after the listeners returned.
+    (Allocation matters to code that remembers id(data): CPython reuses the block of a freed object.)"""
+    tmp = bytes(template)
+    ident = id(tmp)
+    try:
+        overlay.on_packet((src, tmp))
+    finally:
+        del tmp
+    return ident
+
+
+async def deliver(node, obs: Observer, src, data: bytes, watch=(), prelude: bytes | None = None):
     net = node.overlay.network
+    template = bytearray(data)          # made BEFORE the prelude object is freed, so that the only allocation between the
+    reused = None                       # two hand-overs is the datagram object itself
+    if prelude is not None:
+        # back-to-back pair: an authentic datagram is processed and freed, the next packet to arrive is `data`
+        obs.active = False
+        pt = bytearray(prelude)
+        try:
+            id1 = _hand_over(node.overlay, src, pt)
+        except BaseException:
+            id1 = None
+        if getattr(node, "_c01_async_handlers", False):
+            await asyncio.sleep(0)      # its handlers are coroutines: let the prelude's handler start before we look
+            await asyncio.sleep(0)
+        reused = id1
     before = set(net.verified_by_public_key_bin.keys())
     before_peers = {bytes(p.public_key.key_to_bin()) for p in net.verified_peers}
     watched = {}
@@ -733,10 +860,14 @@ async def deliver(node, obs: Observer, src, data: bytes, watch=()):
         if pr is not None:
             watched[bytes(k)] = (pr, peer_state(pr))
     obs.events = []
+    obs.current = data
     obs.active = True
     try:
         try:
-            node.overlay.on_packet((src, data))
+            id2 = _hand_over(node.overlay, src, template)
+            if reused is not None:
+                obs.reuse = getattr(obs, "reuse", 0) + (1 if id2 == reused else 0)
+                obs.pairs = getattr(obs, "pairs", 0) + 1
         except BaseException as e:      # escapes on_packet's own try (e.g. IndexError on data[22]): C03's business
             obs.events.append((("escaped", type(e).__name__), None, {}, None, ""))
         await asyncio.sleep(0)
@@ -916,6 +1047,29 @@ async def run_async(ctx: Ctx, use_model: bool, scale: dict):
     for i, p in enumerate(signed):
         if i % scale["identity_stride"] == 0:
             cases.extend(identity_cases(ctx, p))
+    # -- back-to-back pairs: an authentic datagram is processed and its object freed; the very next packet is a forged one of
+    #    the SAME length (flipped payload byte / another key of the same length with a random signature).  Transports hand
+    #    over a fresh object per packet, so the forged one typically gets the memory block — and id() — of the freed one.
+    for i, p in enumerate(signed):
+        if i % scale.get("pair_stride", 1):
+            continue
+        d = p["data"]
+        spb = spec_eval(d)
+        if not spb["authentic"]:
+            continue
+        kl_, n_ = len(spb["key_field"]), spb["n"]
+        lo, hi = 25 + kl_, len(d) - n_
+        forged = []
+        if hi > lo:
+            j = ctx.rng.randrange(lo, hi)
+            forged.append(("flipped-payload", d[:j] + bytes([d[j] ^ 0x01]) + d[j + 1:]))
+        ak = bytes(fresh_key(ctx, "curve25519").pub().key_to_bin())
+        if len(ak) == kl_:
+            forged.append(("other-key-random-signature",
+                           d[:25] + ak + d[25 + kl_:-n_] + bytes(ctx.rng.randrange(256) for _ in range(n_))))
+        for lab, fd in forged:
+            cases.append({"target": p["overlay"], "data": fd, "op": "back-to-back", "cls": lab, "origin": p["overlay"],
+                          "curve": p["curve"], "src": p["src"], "prelude": d, "srcstate": "after-authentic-datagram"})
     # unsigned datagrams are delivered unmodified (they must keep working and must never yield a Peer)
     uns = [p for p in packets if (p["overlay"], p["data"][22]) not in required]
     for p in uns[:scale["unsigned_samples"]]:
@@ -947,6 +1101,7 @@ async def run_async(ctx: Ctx, use_model: bool, scale: dict):
     lines, expected = [], []
     hyp_live = {"entries_checked": 0, "netok_violations": 0}
     exact_seen = set()
+    last_delivered = {}
     auth_keys = {}          # receiver -> keys authenticated by some delivered datagram carrying its prefix
     accepted = {}           # receiver -> [(src, data)] of deliveries that entered a handler (for history replays)
     try:
@@ -979,7 +1134,7 @@ async def run_async(ctx: Ctx, use_model: bool, scale: dict):
                           ("1" if decode_bit(node, [GlobalTimeDistributionPayload, mp.IntroductionRequestPayload],
                                              c["m_rem"]) else "0")
             watch = [k for k, _ in pre] + [x for x in (sp["canon"], sp["key_field"], net_addr) if x]
-            events, new_keys, moved = await deliver(node, obs, c["src"], data, watch)
+            events, new_keys, moved = await deliver(node, obs, c["src"], data, watch, c.get("prelude"))
             # NetOK on the live index, while the prepared / newly added entries are still there
             netw = node.overlay.network
             for k in set(watch) | set(new_keys):
@@ -1032,6 +1187,11 @@ async def run_async(ctx: Ctx, use_model: bool, scale: dict):
             replay = {"overlay": tgt, "data": data.hex(), "src": list(c["src"]), "operator": c["op"],
                       "position": c["cls"], "origin_overlay": c["origin"], "sender_curve": c["curve"],
                       "verified_before": [[k.hex(), list(a)] for k, a in pre]}
+            # history: what this receiver processed just before (object identity / caches may make the outcome depend on it)
+            # (the last datagram this receiver ACCEPTED: that is the one whose traces — markers, caches — are still there)
+            prev = c.get("prelude") if c.get("prelude") is not None else last_delivered.get(tgt)
+            if prev is not None:
+                replay["delivered_immediately_before"] = prev.hex()
             # a raw (undecorated) function registered under an authenticated id: the reviewed one (spec raw_modelled)
             # authenticates inside and counts as entered when it reaches add_verified_peer; any OTHER raw function is the
             # handler itself — its body runs for whatever arrives, so entering it is the handler invocation
@@ -1081,6 +1241,8 @@ async def run_async(ctx: Ctx, use_model: bool, scale: dict):
                     ctx.count("payload-args:not-comparable")
             if sp["authentic"] and data[:22] == t["prefix"]:
                 auth_keys.setdefault(tgt, set()).add(sp["canon"])
+            if any_entry and sp["authentic"]:
+                last_delivered[tgt] = data
             if any_entry:
                 accepted.setdefault(tgt, []).append((tuple(c["src"]), data, [(k, tuple(a)) for k, a in pre]))
             # wrapper-level address update of a stored Peer (compared with the model's `touched`)
@@ -1155,6 +1317,7 @@ async def run_async(ctx: Ctx, use_model: bool, scale: dict):
     # delivered datagram authenticated
     late = await run_strategies(ctx, recv, auth_keys, accepted)
     ctx.extra["late_effects"] = late
+    ctx.extra["back_to_back_pairs"] = {"pairs": getattr(obs, "pairs", 0), "second_object_got_id_of_first": getattr(obs, "reuse", 0)}
 
     # ---- hypotheses of the theorems, checked on every key met ----------------------------------------------------
     hyp = {"keys": 0, "wellsized_violations": 0, "canon_violations": 0, "netok_violations": 0}
@@ -1225,7 +1388,7 @@ SCALES = {
                "unsigned_samples": 40, "pack_cases": 0, "identity_stride": 2, "base_stride": 2},
     # the same implementation-only run in a child interpreter started with -O (assert statements compiled away)
     "child": {"capture_rounds": 1, "per_pair": 1, "flips": 1, "every_byte_upto": 0, "every_byte_stride": 1,
-              "unsigned_samples": 10, "pack_cases": 0, "identity_stride": 8, "base_stride": 5},
+              "unsigned_samples": 10, "pack_cases": 0, "identity_stride": 8, "base_stride": 5, "pair_stride": 4},
 }
 
 
@@ -1335,8 +1498,8 @@ async def replay(ctx: Ctx, rec: dict):
         before = len(ctx.failures)
         await capture_all(ctx, tables, 1, only=r["overlay"])
         bad = len(ctx.failures) - before
-        print(f"replay: protocol scenarios of {r['overlay']} re-run with the maintenance strategies; keys verified without an "
-              f"authenticating datagram: {bad}; property {'FAILS' if bad else 'holds'}")
+        print(f"replay: protocol scenarios of {r['overlay']} re-run (protocol-run oracles, maintenance strategies); oracle "
+              f"failures: {bad}; property {'FAILS' if bad else 'holds'}")
         ctx.case(("replay",), True)
         return None
     if r.get("then") == "strategies":
@@ -1358,7 +1521,9 @@ async def replay(ctx: Ctx, rec: dict):
             [x for x in (sp["canon"], sp["key_field"], bytes(pa_.public_key.key_to_bin()) if pa_ else None) if x]
     obs.start()
     try:
-        events, new_keys, moved = await deliver(node, obs, src, data, watch)
+        events, new_keys, moved = await deliver(node, obs, src, data, watch,
+                                                bytes.fromhex(r["delivered_immediately_before"])
+                                                if r.get("delivered_immediately_before") else None)
     finally:
         obs.stop()
     h = handler_for(tbn[r["overlay"]], data)
